@@ -124,6 +124,10 @@ def check_to_pyzx(ctx, to):
     by = {}
     for t, body in arms:
         k = "else" if t is None else ast.unparse(t)
+        if t is not None and isinstance(t, ast.Compare) and len(t.ops) == 1 and {ast.unparse(t.left), ast.unparse(t.comparators[0])} == {boxv, "H"}:
+            ctx.ob("R17.2", ZX + ".Diagram.to_pyzx:hadamard-test", isinstance(t.ops[0], ast.Eq), found=k, required="Hadamard boxes are recognised by equality (`box == H`): every Had() instance is one, not only the module's H",
+                   mod=ZX, node=t, sig="hadamard-test")
+            k = "%s == H" % boxv
         by[k] = body
     ctx.need({"isinstance(%s, Spider)" % boxv, "isinstance(%s, Swap)" % boxv, "isinstance(%s, Scalar)" % boxv, "%s == H" % boxv, "else"} <= set(by), "to_pyzx: expected arms Spider / Swap / Scalar / H / else, found %s" % sorted(by))
     order = [k for k in by]
@@ -393,8 +397,10 @@ def check(ctx):
     check_to_pyzx(ctx, to)
     check_move(ctx, fr)
     check_import(ctx, fr)
+    ctx.rule("R17.8", "the swaps from_pyzx routes wires with are the requested permutations (C10, including the zx override of Diagram.swap)")
+    ctx.depend("R17.8", "C10", "from_pyzx moves wires with Diagram.swap(k, 1) / swap(1, k): the block of k wires and the single wire are exchanged as requested", mod="discopy.quantum.zx")
     ctx.floor("R17.1", 12)
-    ctx.floor("R17.2", 7)
+    ctx.floor("R17.2", 8)
     ctx.floor("R17.3", 4)
     ctx.floor("R17.4", 4)
     ctx.floor("R17.5", 5)
